@@ -15,7 +15,8 @@
   numbers     : the coefficient type `R` is a type parameter with `0 1 + * -` only.  FLOAT ROUNDING IS NOT MODELLED.  Float / int literals
                 meeting a number must be 0, 1 or -1.  `complex(x)` of a number is `x`.
   externals   : record `Ext R`: `np.isclose` (`isclose`), `np.allclose` (`allclose`), true division of numbers (`truediv`, `none` =
-                ZeroDivisionError), the iteration order of a `set` of ints (`set_iter`: list of the distinct elements in insertion order
+                ZeroDivisionError), Python's `a == b` / `a != b` on two numbers (`num_eq`; an int literal 0 / 1 / -1 is the ring's
+                constant; `isinstance(v, Number)` on a value of the number kind is decided statically: True), the iteration order of a `set` of ints (`set_iter`: list of the distinct elements in insertion order
                 → the order CPython yields them in).  `max` of a set does not depend on the order and is rendered on the elements.
   dispatch    : every method is rendered once per KIND of its polymorphic argument (num / term / sum, or `val` = the union `PVal R`),
                 on demand from the call sites: `isinstance` tests on an argument of a known kind are decided statically (dead
@@ -65,6 +66,7 @@ CLS_OF = {TERM: "PauliTerm", SUM: "PauliSum"}
 TY_OF = {"PauliTerm": TERM, "PauliSum": SUM}
 TAG = {"PauliTerm": "term", "PauliSum": "sum"}
 NUMCLS = {"int", "float", "complex"}
+NUMABC = "Number"   # numbers.Number: every int / float / complex is an instance (the number kind is exactly int / float / complex here)
 BINOPS = {ast.Mult: "mul", ast.Add: "add", ast.Sub: "sub", ast.Div: "truediv", ast.Pow: "pow"}
 # declared types of the empty containers a method creates (in source order) and of non-polymorphic parameters
 EMPTIES = {("PauliSum", "simplify"): [f"OQ.Py.Dict ({FITEMS}) ({LTERMS})", LTERMS], ("PauliSum", "__init__"): [LTERMS]}
@@ -700,6 +702,11 @@ class TV(T):
             if {ta, tb} <= {NAT, INT, INTLIT} and ta != tb:
                 t = ta if tb == INTLIT else tb
                 return out(f"({self.coerce(a, ta, t)} == {self.coerce(b, tb, t)})")
+            if NUM in (ta, tb) and {ta, tb} <= {NUM, INTLIT}:
+                # Python's == on two numbers: an external (no equality on the abstract R is assumed); a literal is the ring's constant
+                a = self.lit(a, NUM) if ta == INTLIT else a
+                b = self.lit(b, NUM) if tb == INTLIT else b
+                return out(f"(x.num_eq {a} {b})")
             raise TranslateError(f"== on {ta}, {tb}")
         sym = {ast.Lt: "<", ast.LtE: "≤", ast.Gt: ">", ast.GtE: "≥"}.get(type(op))
         if sym:
@@ -722,7 +729,7 @@ class TV(T):
         for x_ in names:
             if not _name(x_):
                 raise TranslateError("isinstance class")
-            if x_.id in NUMCLS:
+            if x_.id in NUMCLS or x_.id == NUMABC:
                 out.add(NUM)
             elif x_.id in TY_OF:
                 out.add(TY_OF[x_.id])
@@ -732,7 +739,7 @@ class TV(T):
                 out.add("«str»")
             else:
                 raise TranslateError(f"isinstance class {x_.id}")
-        if NUM in out and not NUMCLS <= {x_.id for x_ in names}:
+        if NUM in out and not (NUMCLS <= {x_.id for x_ in names} or NUMABC in {x_.id for x_ in names}):
             raise TranslateError("isinstance with only some of int / float / complex (numbers are one kind here)")
         return out
 
@@ -1384,6 +1391,8 @@ structure Ext (R : Type) where
   allclose : R → R → Bool
   /-- `a / b` on numbers (`none` = ZeroDivisionError) -/
   truediv : R → R → Option R
+  /-- `a == b` on two numbers -/
+  num_eq : R → R → Bool
   /-- the order in which `for i in s` yields a set of ints (argument: its distinct elements in insertion order) -/
   set_iter : List Nat → List Nat
 
